@@ -1,8 +1,16 @@
 """Per-property MANIFEST texts (level claimed, trusted base, technique)."""
 
-NOTES = ("All checks: ./check <id> --tier quick|thorough. Each run regenerates facts from /repo, rebuilds the Lean "
+NOTES = ("All checks: ./check <id> --tier quick|thorough (replay: ./check <id> --replay <file>). Each run regenerates facts from /repo, rebuilds the Lean "
          "theorems of the property and audits their axioms, rebuilds the Go harness against /repo's working tree with "
-         "-tags verif, and runs the differential correspondence streams (corpus first). See DESIGN.md.")
+         "-tags verif, and runs the differential correspondence streams (corpus first). "
+         "Trusted base: Lean 4.33 kernel (re-checked with leanchecker in the thorough tier); every property theorem depends on at most "
+         "propext, Classical.choice, Quot.sound (audited with #print axioms on every run; no sorry, admit, native_decide, bv_decide, "
+         "implemented_by, unsafe or added axioms — grepped on every run); the hand-written models under lean/BurrowVerif/Model "
+         "(what is modelled rather than verified is listed per property in level_note and in DESIGN.md section 4 and 10); the fact "
+         "generators and the harness (Go), the orchestrator (Python) and the canonicalisation of outputs; the ties are sampled "
+         "(differential runs) except for the regenerated facts, which are exact for what they extract. A broken obligation or a "
+         "disagreement is reported as a VIOLATION with a concrete replay when one is found and with no-failing-input-found otherwise; "
+         "listed known findings (known_findings.json) are reported as KNOWN-FINDING lines. See DESIGN.md.")
 
 NOT_APPLICABLE = {}
 
@@ -131,7 +139,7 @@ TEXT["C09"] = {
              "delete-group-topic and delete-topic the deleted item is in no list, detail or topic view, while every other cluster, group, topic and partition is reported exactly as before "
              "(removes/frame theorems as equalities of all fetch views at every clock value); deleting what does not exist is the identity; a group whose newest commit is older than the expiry "
              "time is NOTFOUND and then gone from the listing, with the exact boundary; unexpired reads are pure; commits older than the expiry time are ignored. Tie: real storage handlers vs the "
-             "compiled model with all fetches issued after every deletion."),
+             "compiled model with all fetches issued after every deletion. Under the worker pool: group_deletion_is_routed_with_the_groups_commits (`decide` over the routing switch of mainLoop REGENERATED from inmemory.go) and deletion_follows_earlier_commits (a deletion arriving after a commit of its group is queued on the same worker behind it, for any number of workers), tied by the conc stream on the real worker pool."),
     "note": ("Trusted: Lean kernel + standard axioms; harness; clock by sample-and-discard plus time shifting for expiry. Status staleness through the cache is C05's subject."),
 }
 TEXT["C10"] = {
